@@ -1,19 +1,1351 @@
-//! Engine `cache` — not built yet (stub).
+//! Engine `cache` (C12): the real `PageCache` and a real `Pager` on a scratch file against the Lean model
+//! (`Model/Cache.lean`, `Model/Config.lean`), plus the configuration-grid mode through the public SQL API.
+//!
+//! Case kinds (one per line):
+//!   seq <cap> | op ; op ; …            bare PageCache; ops: ins p v d | get p | pin p | unpin k | hread k | hwrite k v |
+//!                                       hdirty k | evict | rm p | clear | drain | setcap n | stat
+//!   pgr <cap> <page size> | op ; …     Pager::from_config on a scratch file; ops: alloc | read p | write p v | pin p |
+//!                                       unpin k | hread k | hwrite k v | flush | reopen | disk p
+//!   cfg <page> <cache> <pool> <min keys> <siblings>    DBConfig::new / builder / page-zero header
+//!   grid <workload seed> <statements> <configs>        one SQL workload under a grid of configurations
+//! Output: the per-op answers joined by " ; ".
 use super::{Case, Engine, Tier};
 use crate::rng::Rng;
+use axmosdb::verif::cache as vc;
+use axmosdb::verif::cache::{VCache, VFrame, VPager};
+use std::io::{ErrorKind, Read, Seek, SeekFrom};
+use std::sync::atomic::{AtomicU64, Ordering};
 
 pub struct CacheEngine;
 
-impl Engine for CacheEngine {
-    fn gen_cases(&self, _rng: &mut Rng, _tier: Tier) -> Vec<Case> {
-        Vec::new()
+const SEQ_PAGE_SIZE: usize = 4096;
+
+fn val_of(f: &VFrame) -> u64 {
+    u64::from_le_bytes(f.read_payload(8).try_into().unwrap())
+}
+
+fn show_frame(f: &VFrame) -> String {
+    format!("{}:{}:{}", f.page_number(), val_of(f), if f.is_dirty() { 1 } else { 0 })
+}
+
+fn num(s: &str) -> Option<u64> {
+    if s.len() > 19 || s.is_empty() || !s.bytes().all(|b| b.is_ascii_digit()) {
+        return None;
     }
-    fn exec(&mut self, _line: &str) -> String {
-        "unimplemented".into()
+    s.parse().ok()
+}
+
+fn split_ops<'a>(ws: &[&'a str]) -> Vec<Vec<&'a str>> {
+    let mut out = Vec::new();
+    let mut cur = Vec::new();
+    for w in ws {
+        if *w == ";" {
+            out.push(std::mem::take(&mut cur));
+        } else {
+            cur.push(*w);
+        }
+    }
+    if !cur.is_empty() {
+        out.push(cur);
+    }
+    out
+}
+
+// ------------------------------------------------------------------------------------------------ seq
+
+#[derive(Clone, Debug)]
+enum COp {
+    Ins(u64, u64, bool),
+    Get(u64),
+    Pin(u64),
+    Unpin(u64),
+    Hread(u64),
+    Hwrite(u64, u64),
+    Hdirty(u64),
+    Evict,
+    Rm(u64),
+    Clear,
+    Drain,
+    Setcap(u64),
+    Stat,
+}
+
+fn parse_cop(ws: &[&str]) -> Option<COp> {
+    Some(match ws {
+        ["ins", p, v, d] => COp::Ins(
+            num(p)?,
+            num(v)?,
+            match *d {
+                "0" => false,
+                "1" => true,
+                _ => return None,
+            },
+        ),
+        ["get", p] => COp::Get(num(p)?),
+        ["pin", p] => COp::Pin(num(p)?),
+        ["unpin", k] => COp::Unpin(num(k)?),
+        ["hread", k] => COp::Hread(num(k)?),
+        ["hwrite", k, v] => COp::Hwrite(num(k)?, num(v)?),
+        ["hdirty", k] => COp::Hdirty(num(k)?),
+        ["evict"] => COp::Evict,
+        ["rm", p] => COp::Rm(num(p)?),
+        ["clear"] => COp::Clear,
+        ["drain"] => COp::Drain,
+        ["setcap", n] => COp::Setcap(num(n)?),
+        ["stat"] => COp::Stat,
+        _ => return None,
+    })
+}
+
+fn is_oom(e: &std::io::Error) -> bool {
+    e.kind() == ErrorKind::OutOfMemory
+}
+
+fn exec_seq(cap: u64, ops: &[COp]) -> String {
+    let mut cache = VCache::with_capacity(cap as usize);
+    let mut handles: Vec<(u64, VFrame)> = Vec::new();
+    let mut next_hid = 0u64;
+    let mut outs: Vec<String> = Vec::with_capacity(ops.len());
+    for op in ops {
+        let o = match op {
+            COp::Ins(p, v, d) => {
+                let f = vc::new_frame(*p, SEQ_PAGE_SIZE, &v.to_le_bytes(), false);
+                if *d {
+                    f.mark_dirty();
+                }
+                let before = cache.num_frames();
+                match cache.insert(f) {
+                    Err(e) if is_oom(&e) => "oom".to_string(),
+                    Err(_) => "io".to_string(),
+                    Ok(Some(ev)) => format!("ins ev={}", show_frame(&ev)),
+                    Ok(None) => {
+                        if cache.num_frames() == before {
+                            "rep".to_string()
+                        } else {
+                            "ins -".to_string()
+                        }
+                    }
+                }
+            }
+            COp::Get(p) => match cache.get(*p) {
+                Some(f) => format!("hit {} {}", val_of(&f), if f.is_dirty() { 1 } else { 0 }),
+                None => "miss".to_string(),
+            },
+            COp::Pin(p) => match cache.get(*p) {
+                Some(f) => {
+                    let k = next_hid;
+                    next_hid += 1;
+                    handles.push((k, f));
+                    format!("h{}", k)
+                }
+                None => "miss".to_string(),
+            },
+            COp::Unpin(k) => match handles.iter().position(|h| h.0 == *k) {
+                Some(i) => {
+                    handles.remove(i);
+                    "ok".to_string()
+                }
+                None => "nohandle".to_string(),
+            },
+            COp::Hread(k) => match handles.iter().find(|h| h.0 == *k) {
+                Some((_, f)) => format!("val {} {}", val_of(f), if f.is_dirty() { 1 } else { 0 }),
+                None => "nohandle".to_string(),
+            },
+            COp::Hwrite(k, v) => match handles.iter().find(|h| h.0 == *k) {
+                Some((_, f)) => {
+                    f.mark_dirty();
+                    f.write_payload(&v.to_le_bytes());
+                    "ok".to_string()
+                }
+                None => "nohandle".to_string(),
+            },
+            COp::Hdirty(k) => match handles.iter().find(|h| h.0 == *k) {
+                Some((_, f)) => {
+                    f.mark_dirty();
+                    "ok".to_string()
+                }
+                None => "nohandle".to_string(),
+            },
+            COp::Evict => match cache.evict() {
+                Err(e) if is_oom(&e) => "oom".to_string(),
+                Err(_) => "io".to_string(),
+                Ok(None) => "none".to_string(),
+                Ok(Some(ev)) => format!("ev={}", show_frame(&ev)),
+            },
+            COp::Rm(p) => match cache.remove(*p) {
+                Some(f) => format!("rm {} n={}", show_frame(&f), cache.num_frames()),
+                None => format!("rm - n={}", cache.num_frames()),
+            },
+            COp::Clear => {
+                let fs = cache.clear();
+                let l: Vec<String> = fs.iter().map(show_frame).collect();
+                format!("clear [{}]", l.join(","))
+            }
+            COp::Drain => {
+                let fs = cache.drain();
+                let l: Vec<String> = fs.iter().map(show_frame).collect();
+                format!("drain [{}]", l.join(","))
+            }
+            COp::Setcap(n) => {
+                cache.set_capacity(*n as usize);
+                "ok".to_string()
+            }
+            COp::Stat => format!("cap={} n={}", cache.capacity(), cache.num_frames()),
+        };
+        outs.push(o);
+    }
+    let (h, m, e) = cache.stats();
+    format!("{} ## hits={} misses={} evictions={}", outs.join(" ; "), h, m, e)
+}
+
+// ------------------------------------------------------------------------------------------------ pgr
+
+#[derive(Clone, Debug)]
+enum POp {
+    Alloc,
+    Read(u64),
+    Write(u64, u64),
+    Pin(u64),
+    Unpin(u64),
+    Hread(u64),
+    Hwrite(u64, u64),
+    Flush,
+    Reopen,
+    Disk(u64),
+}
+
+fn parse_pop(ws: &[&str]) -> Option<POp> {
+    Some(match ws {
+        ["alloc"] => POp::Alloc,
+        ["read", p] => POp::Read(num(p)?),
+        ["write", p, v] => POp::Write(num(p)?, num(v)?),
+        ["pin", p] => POp::Pin(num(p)?),
+        ["unpin", k] => POp::Unpin(num(k)?),
+        ["hread", k] => POp::Hread(num(k)?),
+        ["hwrite", k, v] => POp::Hwrite(num(k)?, num(v)?),
+        ["flush"] => POp::Flush,
+        ["reopen"] => POp::Reopen,
+        ["disk", p] => {
+            let p = num(p)?;
+            if p == 0 {
+                return None;
+            }
+            POp::Disk(p)
+        }
+        _ => return None,
+    })
+}
+
+static SCRATCH_COUNTER: AtomicU64 = AtomicU64::new(0);
+
+/// A scratch directory removed on drop.
+pub struct Scratch(pub std::path::PathBuf);
+impl Scratch {
+    pub fn new(tag: &str) -> Scratch {
+        let n = SCRATCH_COUNTER.fetch_add(1, Ordering::SeqCst);
+        let base = std::env::var("AXH_SCRATCH").map(std::path::PathBuf::from).unwrap_or_else(|_| std::env::temp_dir());
+        let p = base.join(format!("axh-{}-{}-{}", tag, std::process::id(), n));
+        let _ = std::fs::remove_dir_all(&p);
+        std::fs::create_dir_all(&p).expect("scratch dir");
+        Scratch(p)
+    }
+}
+impl Drop for Scratch {
+    fn drop(&mut self) {
+        let _ = std::fs::remove_dir_all(&self.0);
+    }
+}
+
+fn err_class(e: &std::io::Error) -> String {
+    if is_oom(e) { "oom".into() } else { "io".into() }
+}
+
+fn disk_value(path: &std::path::Path, page: u64, page_size: u64) -> Option<u64> {
+    let mut f = std::fs::File::open(path).ok()?;
+    let len = f.metadata().ok()?.len();
+    if (page + 1) * page_size > len {
+        return None;
+    }
+    f.seek(SeekFrom::Start(page * page_size + vc::PAYLOAD_OFFSET as u64)).ok()?;
+    let mut b = [0u8; 8];
+    f.read_exact(&mut b).ok()?;
+    Some(u64::from_le_bytes(b))
+}
+
+fn exec_pgr(cap: u64, ps: u64, ops: &[POp]) -> String {
+    let dir = Scratch::new("pgr");
+    let path = dir.0.join("c12.db");
+    let cfg = axmosdb::DBConfig::new(ps as usize, cap as usize, 1, 3, 2);
+    let mut pager = match VPager::create(&path, cfg) {
+        Ok(p) => Some(p),
+        Err(_) => return "create-failed".into(),
+    };
+    let mut handles: Vec<(u64, VFrame)> = Vec::new();
+    let mut next_hid = 0u64;
+    let mut outs: Vec<String> = Vec::with_capacity(ops.len());
+    // Page ids are handed out sequentially. An id consumed by an allocation that failed never reached its caller (nor the
+    // cache, nor the file): such pages are not referred to afterwards.
+    let mut next_id = 1u64;
+    let mut lost: Vec<u64> = Vec::new();
+    for op in ops {
+        let pg = pager.as_mut().unwrap();
+        if let POp::Read(p) | POp::Write(p, _) | POp::Pin(p) | POp::Disk(p) = op {
+            if lost.contains(p) {
+                outs.push("lost".into());
+                continue;
+            }
+        }
+        let o = match op {
+            POp::Alloc => {
+                let r = pg.alloc();
+                let id = next_id;
+                next_id += 1;
+                match r {
+                    Ok(got) if got == id => format!("a{}", got),
+                    Ok(got) => format!("a{} PROPFAIL expected-id={}", got, id),
+                    Err(e) => {
+                        lost.push(id);
+                        err_class(&e)
+                    }
+                }
+            }
+            POp::Read(p) => match pg.read_payload(*p, 8) {
+                Ok(b) => format!("r{}", u64::from_le_bytes(b.try_into().unwrap())),
+                Err(e) => err_class(&e),
+            },
+            POp::Write(p, v) => match pg.write(*p, &v.to_le_bytes()) {
+                Ok(()) => "ok".into(),
+                Err(e) => err_class(&e),
+            },
+            POp::Pin(p) => match pg.read(*p) {
+                Ok(f) => {
+                    let k = next_hid;
+                    next_hid += 1;
+                    handles.push((k, f));
+                    format!("h{}", k)
+                }
+                Err(e) => err_class(&e),
+            },
+            POp::Unpin(k) => match handles.iter().position(|h| h.0 == *k) {
+                Some(i) => {
+                    handles.remove(i);
+                    "ok".into()
+                }
+                None => "nohandle".into(),
+            },
+            POp::Hread(k) => match handles.iter().find(|h| h.0 == *k) {
+                Some((_, f)) => format!("r{}", val_of(f)),
+                None => "nohandle".into(),
+            },
+            POp::Hwrite(k, v) => match handles.iter().find(|h| h.0 == *k) {
+                Some((_, f)) => {
+                    f.mark_dirty();
+                    f.write_payload(&v.to_le_bytes());
+                    "ok".into()
+                }
+                None => "nohandle".into(),
+            },
+            POp::Flush => match pg.flush() {
+                Ok(()) => "ok".into(),
+                Err(e) => err_class(&e),
+            },
+            POp::Reopen => match pg.flush() {
+                Err(e) => err_class(&e),
+                Ok(()) => {
+                    drop(pager.take()); // releases the file lock
+                    match VPager::open(&path) {
+                        Ok(p) => {
+                            pager = Some(p);
+                            "ok".into()
+                        }
+                        Err(_) => return format!("{} ; open-failed", outs.join(" ; ")),
+                    }
+                }
+            },
+            POp::Disk(p) => match disk_value(&path, *p, ps) {
+                Some(v) => format!("d{}", v),
+                None => "eof".into(),
+            },
+        };
+        outs.push(o);
+    }
+    let hc = pager.as_ref().unwrap().header_config();
+    drop(handles);
+    drop(pager);
+    format!("{} ## total_pages={}", outs.join(" ; "), hc.total_pages)
+}
+
+// ------------------------------------------------------------------------------------------------ cfg
+
+fn exec_cfg(a: u64, b: u64, c: u64, d: u64, e: u64) -> String {
+    let show = |x: [usize; 5]| format!("{},{},{},{},{}", x[0], x[1], x[2], x[3], x[4]);
+    let n = vc::config_new(a as usize, b as usize, c as usize, d as usize, e as usize);
+    let bl = vc::config_builder(a as usize, b as usize, c as usize, d as usize, e as usize);
+    let mut out = format!("new={} bld={}", show(n), show(bl));
+    if b <= 1_000_000 {
+        // the header as written by Pager::from_config and as read back by Pager::open
+        let dir = Scratch::new("cfg");
+        let path = dir.0.join("c12.db");
+        let cfg = axmosdb::DBConfig::new(a as usize, b as usize, c as usize, d as usize, e as usize);
+        let h1 = match VPager::create(&path, cfg) {
+            Ok(p) => p.header_config(),
+            Err(_) => return "create-failed".into(),
+        };
+        let h2 = match VPager::open(&path) {
+            Ok(p) => p.header_config(),
+            Err(_) => return "open-failed".into(),
+        };
+        out.push_str(&format!(" hdr={},{},{},{}", h1.page_size, h1.cache_size, h1.min_keys, h1.num_siblings_per_side));
+        if h1 != h2 {
+            out.push_str(" PROPFAIL header-differs-after-open");
+        }
+    }
+    out
+}
+
+
+// ------------------------------------------------------------------------------------------------ grid
+//
+// One SQL workload (a compact statement list on two fixed tables) executed through the public API under several
+// configurations; every statement's canonical result and the final contents must be identical in all of them.
+//   grid <config seed> <n configs> <small 0|1> | stmt ; stmt ; …
+//   stmts: ins id k len | upd id k | updb id len | updr lo hi k | del id | delr lo hi | sel all | sel cnt | sel id x |
+//          sel k lo hi | uins id code v | udel id | usel | ckpt
+// `ckpt` is a checkpoint (Database::flush) executed only by the configurations that have checkpoints switched on.
+
+#[derive(Clone, Debug)]
+enum GStmt {
+    Ins(u64, u64, u64),
+    /// `bulk lo n k len`: n single-row inserts with ids lo.., answered as one result
+    Bulk(u64, u64, u64, u64),
+    Upd(u64, u64),
+    UpdBody(u64, u64),
+    UpdRange(u64, u64, u64),
+    Del(u64),
+    DelRange(u64, u64),
+    SelAll,
+    SelCnt,
+    SelId(u64),
+    SelK(u64, u64),
+    UIns(u64, u64, u64),
+    UDel(u64),
+    USel,
+    Ckpt,
+}
+
+fn parse_gstmt(ws: &[&str]) -> Option<GStmt> {
+    Some(match ws {
+        ["ins", a, b, c] => GStmt::Ins(num(a)?, num(b)?, num(c)?),
+        ["bulk", a, b, c, d] => {
+            let n = num(b)?;
+            if n == 0 || n > 2000 {
+                return None;
+            }
+            GStmt::Bulk(num(a)?, n, num(c)?, num(d)?)
+        }
+        ["upd", a, b] => GStmt::Upd(num(a)?, num(b)?),
+        ["updb", a, b] => GStmt::UpdBody(num(a)?, num(b)?),
+        ["updr", a, b, c] => GStmt::UpdRange(num(a)?, num(b)?, num(c)?),
+        ["del", a] => GStmt::Del(num(a)?),
+        ["delr", a, b] => GStmt::DelRange(num(a)?, num(b)?),
+        ["sel", "all"] => GStmt::SelAll,
+        ["sel", "cnt"] => GStmt::SelCnt,
+        ["sel", "id", a] => GStmt::SelId(num(a)?),
+        ["sel", "k", a, b] => GStmt::SelK(num(a)?, num(b)?),
+        ["uins", a, b, c] => GStmt::UIns(num(a)?, num(b)?, num(c)?),
+        ["udel", a] => GStmt::UDel(num(a)?),
+        ["usel"] => GStmt::USel,
+        ["ckpt"] => GStmt::Ckpt,
+        _ => return None,
+    })
+}
+
+/// body text of a row: a self-describing repetition, so that a damaged overflow chain is visible in the row itself
+fn body_of(id: u64, len: u64) -> String {
+    let unit = format!("b{}x{}_", id, len);
+    let mut s = String::with_capacity(len as usize + unit.len());
+    while (s.len() as u64) < len {
+        s.push_str(&unit);
+    }
+    s.truncate(len as usize);
+    s
+}
+
+fn sql_of(st: &GStmt) -> Option<String> {
+    Some(match st {
+        GStmt::Ins(id, k, len) => format!("INSERT INTO t VALUES ({}, {}, 'n{}', '{}')", id, k, id, body_of(*id, *len)),
+        GStmt::Upd(id, k) => format!("UPDATE t SET k = {} WHERE id = {}", k, id),
+        GStmt::UpdBody(id, len) => format!("UPDATE t SET body = '{}' WHERE id = {}", body_of(*id, *len), id),
+        GStmt::UpdRange(lo, hi, k) => format!("UPDATE t SET k = {} WHERE id >= {} AND id < {}", k, lo, hi),
+        GStmt::Del(id) => format!("DELETE FROM t WHERE id = {}", id),
+        GStmt::DelRange(lo, hi) => format!("DELETE FROM t WHERE id >= {} AND id < {}", lo, hi),
+        GStmt::SelAll => "SELECT id, k, name, body FROM t".to_string(),
+        GStmt::SelCnt => "SELECT COUNT(*) FROM t".to_string(),
+        GStmt::SelId(x) => format!("SELECT id, k, name, body FROM t WHERE id = {}", x),
+        GStmt::SelK(lo, hi) => format!("SELECT id, k FROM t WHERE k >= {} AND k < {}", lo, hi),
+        GStmt::UIns(id, code, v) => format!("INSERT INTO u VALUES ({}, 'c{}', {})", id, code, v),
+        GStmt::UDel(id) => format!("DELETE FROM u WHERE id = {}", id),
+        GStmt::USel => "SELECT id, code, v FROM u".to_string(),
+        GStmt::Ckpt | GStmt::Bulk(..) => return None,
+    })
+}
+
+#[derive(Clone, Copy, Debug, PartialEq)]
+struct GridCfg {
+    page: usize,
+    cache: usize,
+    pool: usize,
+    min_keys: usize,
+    siblings: usize,
+    ckpt: bool,
+}
+
+impl GridCfg {
+    fn show(&self) -> String {
+        format!(
+            "page={},cache={},pool={},minkeys={},siblings={},ckpt={}",
+            self.page, self.cache, self.pool, self.min_keys, self.siblings, self.ckpt as u8
+        )
+    }
+}
+
+fn grid_configs(seed: u64, n: u64, small: bool) -> Vec<GridCfg> {
+    let mut rng = Rng::new(seed).fork("grid-configs");
+    // the reference: the configuration every SQL-level test of the code base runs with
+    let mut v = vec![GridCfg { page: 4096, cache: 10000, pool: 2, min_keys: 3, siblings: 2, ckpt: false }];
+    while (v.len() as u64) < n.max(2) {
+        let cache = if small && v.len() % 3 == 1 { *rng.pick(&[4usize, 8, 16, 24]) } else { *rng.pick(&[48usize, 128, 1024, 10000]) };
+        let c = GridCfg {
+            page: *rng.pick(&[4096usize, 8192, 16384, 32768, 65536]),
+            cache,
+            pool: *rng.pick(&[1usize, 2, 8]),
+            min_keys: *rng.pick(&[3usize, 5]),
+            siblings: *rng.pick(&[1usize, 2, 3]),
+            ckpt: rng.chance(1, 2),
+        };
+        if !v.contains(&c) {
+            v.push(c);
+        }
+    }
+    v
+}
+
+fn db_err_class(e: &axmosdb::DatabaseError) -> String {
+    let m = e.to_string().to_lowercase();
+    if m.contains("out of memory") {
+        "err:oom".into()
+    } else if m.contains("unique") || m.contains("constraint") || m.contains("duplicate") {
+        "err:constraint".into()
+    } else if m.contains("parse") {
+        "err:parse".into()
+    } else if m.contains("binder") || m.contains("bind") {
+        "err:bind".into()
+    } else if std::env::var("AXH_DEBUG").is_ok() {
+        format!("err:other({})", m)
+    } else {
+        "err:other".into()
+    }
+}
+
+fn fnv(h: &mut u64, bytes: &[u8]) {
+    for b in bytes {
+        *h ^= *b as u64;
+        *h = h.wrapping_mul(0x100000001b3);
+    }
+}
+
+/// canonical result of one statement: rows sorted (no statement of the workload has ORDER BY); long cells replaced by
+/// length + hash after checking that a body is the repetition it claims to be
+fn canon_result(r: Result<axmosdb::runtime::QueryResult, axmosdb::DatabaseError>) -> String {
+    use axmosdb::runtime::QueryResult;
+    match r {
+        Err(e) => db_err_class(&e),
+        Ok(QueryResult::RowsAffected(n)) => format!("affected {}", n),
+        Ok(QueryResult::Ddl(_)) => "ddl".into(),
+        Ok(QueryResult::Rows(rows)) => {
+            let mut out: Vec<String> = Vec::new();
+            for row in rows.iterrows() {
+                let cells: Vec<String> = row
+                    .iter()
+                    .map(|v| {
+                        let s = v.to_string();
+                        if s.len() > 40 {
+                            let mut h = 0xcbf29ce484222325u64;
+                            fnv(&mut h, s.as_bytes());
+                            // self-consistency of a body: repetition of its own first unit
+                            let t = s.as_str();
+                            let ok = match t.find('_') {
+                                Some(i) => {
+                                    let unit = &t.as_bytes()[..=i];
+                                    t.as_bytes().iter().enumerate().all(|(j, b)| *b == unit[j % unit.len()])
+                                }
+                                None => false,
+                            };
+                            format!("<{}:{:016x}:{}>", s.len(), h, if ok { "ok" } else { "DAMAGED" })
+                        } else {
+                            s
+                        }
+                    })
+                    .collect();
+                out.push(cells.join("|"));
+            }
+            out.sort();
+            format!("rows {} [{}]", out.len(), out.join(";"))
+        }
+    }
+}
+
+/// A worker thread of the engine panicked while running the statement (the task channel is closed under the caller).
+fn is_worker_panic(r: &Result<axmosdb::runtime::QueryResult, axmosdb::DatabaseError>) -> bool {
+    matches!(r, Err(e) if e.to_string().contains("channel closed"))
+}
+
+/// Runs the workload under one configuration, sending one canonical result per statement (then the final contents).
+/// Stops after a statement that killed a worker thread (`panic`).
+fn run_workload_into(cfg: GridCfg, stmts: Vec<GStmt>, path: std::path::PathBuf, tx: std::sync::mpsc::Sender<String>) {
+    let debug = std::env::var("AXH_DEBUG").is_ok();
+    if debug {
+        eprintln!("config {}", cfg.show());
+    }
+    let dbc = axmosdb::DBConfig::new(cfg.page, cfg.cache, cfg.pool, cfg.min_keys, cfg.siblings);
+    let db = match axmosdb::Database::create(&path, dbc) {
+        Ok(d) => d,
+        Err(e) => {
+            let _ = tx.send(format!("create-failed {}", db_err_class(&e)));
+            return;
+        }
+    };
+    let exec = |sql: &str| -> (String, bool) {
+        let r = db.execute(sql);
+        if is_worker_panic(&r) { ("panic".to_string(), true) } else { (canon_result(r), false) }
+    };
+    for sql in ["CREATE TABLE t (id BIGINT, k INT, name TEXT, body TEXT)", "CREATE TABLE u (id BIGINT, code TEXT, v INT, UNIQUE(code))"] {
+        let (r, dead) = exec(sql);
+        let _ = tx.send(r);
+        if dead {
+            return;
+        }
+    }
+    for st in &stmts {
+        if debug {
+            eprintln!("  stmt {:?}", st);
+        }
+        let (r, dead) = match st {
+            GStmt::Ckpt => {
+                // the answer is the same ("ok") whether this configuration performs the checkpoint or not
+                if cfg.ckpt {
+                    match db.flush() {
+                        Ok(()) => ("ok".to_string(), false),
+                        Err(e) => (db_err_class(&e), false),
+                    }
+                } else {
+                    ("ok".to_string(), false)
+                }
+            }
+            GStmt::Bulk(lo, n, k, len) => {
+                let mut out = (format!("affected {}", n), false);
+                for id in *lo..*lo + *n {
+                    let (r, dead) = exec(&sql_of(&GStmt::Ins(id, *k, *len)).unwrap());
+                    if r != "affected 1" {
+                        out = (if dead { r } else { format!("{} at id {}", r, id) }, dead);
+                        break;
+                    }
+                }
+                out
+            }
+            other => exec(&sql_of(other).unwrap()),
+        };
+        let _ = tx.send(r);
+        if dead {
+            return;
+        }
+    }
+    for sql in ["SELECT id, k, name, body FROM t", "SELECT id, code, v FROM u"] {
+        let (r, dead) = exec(sql);
+        let _ = tx.send(r);
+        if dead {
+            return;
+        }
+    }
+    drop(db);
+    let _ = tx.send("<end>".into());
+}
+
+/// One canonical result per statement + the final contents. A statement that does not answer within the time limit
+/// is reported as `hang` (the thread is abandoned), so that a hang is a result like any other.
+fn run_workload(cfg: &GridCfg, stmts: &[GStmt]) -> Vec<String> {
+    let dir = Scratch::new("grid");
+    let path = dir.0.join("c12grid.db");
+    let (tx, rx) = std::sync::mpsc::channel::<String>();
+    let (c, st) = (*cfg, stmts.to_vec());
+    let handle = std::thread::spawn(move || run_workload_into(c, st, path, tx));
+    let mut res: Vec<String> = Vec::with_capacity(stmts.len() + 4);
+    loop {
+        match rx.recv_timeout(std::time::Duration::from_secs(20)) {
+            Ok(r) if r == "<end>" => {
+                let _ = handle.join();
+                break;
+            }
+            Ok(r) => res.push(r),
+            Err(std::sync::mpsc::RecvTimeoutError::Timeout) => {
+                res.push("hang".into());
+                break;
+            }
+            Err(std::sync::mpsc::RecvTimeoutError::Disconnected) => {
+                // the workload thread ended early (worker panic reported as `panic`, or creation failed)
+                let _ = handle.join();
+                break;
+            }
+        }
+    }
+    res
+}
+
+/// what a plain ordered map says the statements should answer (diagnostic only: SQL semantics belong to C05)
+fn oracle(stmts: &[GStmt]) -> Vec<String> {
+    use std::collections::BTreeMap;
+    let mut t: BTreeMap<u64, (u64, u64)> = BTreeMap::new(); // id -> (k, body len)
+    let mut u: BTreeMap<u64, (u64, u64)> = BTreeMap::new(); // id -> (code, v)
+    let cell = |id: u64, len: u64| {
+        let s = body_of(id, len);
+        if s.len() > 40 {
+            let mut h = 0xcbf29ce484222325u64;
+            fnv(&mut h, s.as_bytes());
+            format!("<{}:{:016x}:ok>", s.len(), h)
+        } else {
+            s
+        }
+    };
+    let show_t = |t: &BTreeMap<u64, (u64, u64)>, f: &dyn Fn(u64, u64) -> bool, narrow: bool| {
+        let mut out: Vec<String> = t
+            .iter()
+            .filter(|(id, (k, _))| f(**id, *k))
+            .map(|(id, (k, len))| if narrow { format!("{}|{}", id, k) } else { format!("{}|{}|n{}|{}", id, k, id, cell(*id, *len)) })
+            .collect();
+        out.sort();
+        format!("rows {} [{}]", out.len(), out.join(";"))
+    };
+    let show_u = |u: &BTreeMap<u64, (u64, u64)>| {
+        let mut out: Vec<String> = u.iter().map(|(id, (c, v))| format!("{}|c{}|{}", id, c, v)).collect();
+        out.sort();
+        format!("rows {} [{}]", out.len(), out.join(";"))
+    };
+    let mut res = vec!["ddl".to_string(), "ddl".to_string()];
+    for st in stmts {
+        res.push(match st {
+            GStmt::Ins(id, k, len) => {
+                t.insert(*id, (*k, *len));
+                "affected 1".into()
+            }
+            GStmt::Bulk(lo, n, k, len) => {
+                for id in *lo..*lo + *n {
+                    t.insert(id, (*k, *len));
+                }
+                format!("affected {}", n)
+            }
+            GStmt::Upd(id, k) => match t.get_mut(id) {
+                Some(r) => {
+                    r.0 = *k;
+                    "affected 1".into()
+                }
+                None => "affected 0".into(),
+            },
+            GStmt::UpdBody(id, len) => match t.get_mut(id) {
+                Some(r) => {
+                    r.1 = *len;
+                    "affected 1".into()
+                }
+                None => "affected 0".into(),
+            },
+            GStmt::UpdRange(lo, hi, k) => {
+                let mut n = 0;
+                for (id, r) in t.iter_mut() {
+                    if *id >= *lo && *id < *hi {
+                        r.0 = *k;
+                        n += 1;
+                    }
+                }
+                format!("affected {}", n)
+            }
+            GStmt::Del(id) => format!("affected {}", t.remove(id).is_some() as u8),
+            GStmt::DelRange(lo, hi) => {
+                let ids: Vec<u64> = t.keys().filter(|i| **i >= *lo && **i < *hi).cloned().collect();
+                for i in &ids {
+                    t.remove(i);
+                }
+                format!("affected {}", ids.len())
+            }
+            GStmt::SelAll => show_t(&t, &|_, _| true, false),
+            GStmt::SelCnt => format!("rows 1 [{}]", t.len()),
+            GStmt::SelId(x) => show_t(&t, &|id, _| id == *x, false),
+            GStmt::SelK(lo, hi) => show_t(&t, &|_, k| k >= *lo && k < *hi, true),
+            GStmt::UIns(id, code, v) => {
+                if u.values().any(|(c, _)| c == code) {
+                    "err:constraint".into()
+                } else {
+                    u.insert(*id, (*code, *v));
+                    "affected 1".into()
+                }
+            }
+            GStmt::UDel(id) => format!("affected {}", u.remove(id).is_some() as u8),
+            GStmt::USel => show_u(&u),
+            GStmt::Ckpt => "ok".into(),
+        });
+    }
+    res.push(show_t(&t, &|_, _| true, false));
+    res.push(show_u(&u));
+    res
+}
+
+fn exec_grid(seed: u64, ncfg: u64, small: bool, stmts: &[GStmt]) -> String {
+    exec_grid_with(grid_configs(seed, ncfg, small), stmts)
+}
+
+fn exec_grid_with(cfgs: Vec<GridCfg>, stmts: &[GStmt]) -> String {
+    if std::env::var("AXH_DEBUG").is_ok() {
+        std::panic::set_hook(Box::new(|i| eprintln!("PANIC {}\n{}", i, std::backtrace::Backtrace::force_capture())));
+    }
+    let reference = run_workload(&cfgs[0], stmts);
+    if let Some(i) = reference.iter().position(|r| r.contains("DAMAGED") || r == "err:oom" || r == "panic" || r == "hang") {
+        return format!("PROPFAIL reference config={} stmt={} got={}", cfgs[0].show(), i, short(&reference[i]));
+    }
+    let mut tolerated = 0;
+    for c in &cfgs[1..] {
+        let got = run_workload(c, stmts);
+        let too_small = c.cache < 48;
+        for i in 0..reference.len().max(got.len()) {
+            let r = reference.get(i).map(|s| s.as_str()).unwrap_or("<missing>");
+            let g = got.get(i).map(|s| s.as_str()).unwrap_or("<missing>");
+            if r == g {
+                continue;
+            }
+            if g.starts_with("err:oom") && too_small {
+                // the one permitted difference: an explicit out-of-memory error from a cache too small for the operation;
+                // what follows in this configuration is not compared (statement atomicity after an error belongs to C03)
+                tolerated += 1;
+                break;
+            }
+            return format!("PROPFAIL diff config={} stmt={} ref={} got={}", c.show(), i, short(r), short(g));
+        }
+    }
+    let orc = oracle(stmts);
+    let diag = match (0..reference.len()).find(|i| orc.get(*i) != reference.get(*i)) {
+        Some(i) => format!("oracle-mismatch stmt={} ref={} oracle={}", i, short(&reference[i]), short(orc.get(i).map(|s| s.as_str()).unwrap_or("<none>"))),
+        None => "oracle=ok".into(),
+    };
+    format!("same ## configs={} tolerated_oom={} {}", cfgs.len(), tolerated, diag)
+}
+
+fn short(s: &str) -> String {
+    if s.len() > 160 { format!("{}…({} bytes)", &s[..160], s.len()) } else { s.to_string() }
+}
+
+/// `big` = the workload contains rows of 300 bytes and more (cells that fill a good part of a 4 KiB page, rows that
+/// overflow under some or all page sizes); without it every row is below 300 bytes.
+fn gen_grid(rng: &mut Rng, n_cfg: u64, big: bool) -> String {
+    let n = rng.range(50, 130) as usize;
+    let small = rng.chance(1, 2);
+    // Every INSERT adds a version to the table's catalog row and the version counter is one byte: the 256th insert
+    // into a table panics (tuple.rs:1020, add with overflow; C18's defect). Stay below that.
+    const MAX_INSERTS: u64 = 240;
+    let mut inserted = 0u64;
+    let mut ids: Vec<u64> = Vec::new();
+    let mut next_id = 1u64;
+    let mut next_u = 1u64;
+    let mut ops: Vec<String> = Vec::new();
+    let pick_len = |rng: &mut Rng| -> u64 {
+        if !big {
+            return if rng.chance(1, 5) { 120 + rng.below(180) } else { rng.below(120) };
+        }
+        match rng.below(10) {
+            0..=4 => rng.below(120),
+            5 | 6 => 300 + rng.below(900),
+            7 => 1500 + rng.below(3000),
+            8 => 5000 + rng.below(15000),
+            // larger than a third of a 64 KiB page: overflows under every page size (a log record cannot exceed ~40 KB)
+            _ => 22000 + rng.below(16000),
+        }
+    };
+    // enough rows that the database outgrows a 48-page cache of 4 KiB pages in some workloads
+    let bulk_rows = if big { 12 } else { *rng.pick(&[20u64, 40, 80]) };
+    for i in 0..n {
+        let any = |rng: &mut Rng, ids: &Vec<u64>| if ids.is_empty() { 1 } else { *rng.pick(ids) };
+        let mut r = if i < 6 { 0 } else if i < 9 { 45 } else { rng.below(100) };
+        if r < 47 && inserted + 1 + bulk_rows > MAX_INSERTS {
+            r = 47 + rng.below(49);
+        }
+        let op = if r < 40 {
+            inserted += 1;
+            let id = next_id;
+            next_id += 1 + rng.below(2);
+            ids.push(id);
+            format!("ins {} {} {}", id, rng.below(50), pick_len(rng))
+        } else if r < 47 {
+            let cnt = 1 + rng.below(bulk_rows);
+            inserted += cnt;
+            let lo = next_id;
+            next_id += cnt + rng.below(3);
+            ids.extend(lo..lo + cnt);
+            format!("bulk {} {} {} {}", lo, cnt, rng.below(50), pick_len(rng))
+        } else if r < 55 {
+            format!("upd {} {}", any(rng, &ids), rng.below(50))
+        } else if r < 62 {
+            format!("updb {} {}", any(rng, &ids), pick_len(rng))
+        } else if r < 66 {
+            let lo = rng.below(next_id);
+            format!("updr {} {} {}", lo, lo + rng.below(40), rng.below(50))
+        } else if r < 72 {
+            let id = any(rng, &ids);
+            ids.retain(|x| *x != id);
+            format!("del {}", id)
+        } else if r < 76 {
+            let lo = rng.below(next_id);
+            let hi = lo + rng.below(30);
+            ids.retain(|x| !(*x >= lo && *x < hi));
+            format!("delr {} {}", lo, hi)
+        } else if r < 79 {
+            "sel all".to_string()
+        } else if r < 82 {
+            "sel cnt".to_string()
+        } else if r < 86 {
+            format!("sel id {}", any(rng, &ids))
+        } else if r < 89 {
+            let lo = rng.below(50);
+            format!("sel k {} {}", lo, lo + rng.below(20))
+        } else if r < 93 {
+            let id = next_u;
+            next_u += 1;
+            format!("uins {} {} {}", id, rng.below(30), rng.below(100))
+        } else if r < 95 {
+            format!("udel {}", 1 + rng.below(next_u))
+        } else if r < 96 {
+            "usel".to_string()
+        } else {
+            "ckpt".to_string()
+        };
+        ops.push(op);
+    }
+    format!("grid {} {} {} | {}", rng.below(1 << 40), n_cfg, small as u8, ops.join(" ; "))
+}
+
+fn gen_seq(rng: &mut Rng) -> String {
+    let cap = match rng.below(10) {
+        0 => 0,
+        1 | 2 => 1,
+        3 | 4 => rng.range(2, 4) as u64,
+        5 | 6 | 7 => rng.range(5, 16) as u64,
+        _ => rng.range(17, 64) as u64,
+    };
+    let n_ops = rng.range(4, 30) as usize + if rng.chance(1, 3) { rng.range(20, 120) as usize } else { 0 };
+    let pages = (cap.max(1) * rng.range(1, 3) as u64 + rng.below(4)).max(2);
+    // op mix: a profile per case so that some cases are pin-heavy (OOM), some clear-heavy, …
+    let pin_w = *rng.pick(&[1u64, 3, 8, 16]);
+    let unpin_w = *rng.pick(&[1u64, 3, 8]);
+    let clear_w = *rng.pick(&[0u64, 1, 1, 3]);
+    let rm_w = *rng.pick(&[0u64, 1, 2]);
+    let setcap_w = *rng.pick(&[0u64, 0, 0, 1]);
+    let mut ops: Vec<String> = Vec::new();
+    let mut pins = 0u64;
+    for _ in 0..n_ops {
+        let total = 12 + 5 + pin_w + unpin_w + 3 + 3 + 1 + 2 + rm_w + clear_w + setcap_w + 1;
+        let mut r = rng.below(total);
+        let mut take = |w: u64| {
+            if r < w {
+                true
+            } else {
+                r -= w;
+                false
+            }
+        };
+        let p = 1 + rng.below(pages);
+        let extra = if rng.chance(1, 8) { 1 } else { 0 };
+        let k = if pins == 0 { 0 } else { rng.below(pins + extra) };
+        let v = if rng.chance(1, 20) { rng.next_u64() >> 1 } else { rng.below(1000) };
+        let op = if take(12) {
+            format!("ins {} {} {}", p, v, rng.below(2))
+        } else if take(5) {
+            format!("get {}", p)
+        } else if take(pin_w) {
+            pins += 1;
+            format!("pin {}", p)
+        } else if take(unpin_w) {
+            format!("unpin {}", k)
+        } else if take(3) {
+            format!("hread {}", k)
+        } else if take(3) {
+            format!("hwrite {} {}", k, v)
+        } else if take(1) {
+            format!("hdirty {}", k)
+        } else if take(2) {
+            "evict".to_string()
+        } else if take(rm_w) {
+            format!("rm {}", p)
+        } else if take(clear_w) {
+            if rng.chance(1, 4) { "drain".to_string() } else { "clear".to_string() }
+        } else if take(setcap_w) {
+            format!("setcap {}", rng.below(cap + 4))
+        } else {
+            "stat".to_string()
+        };
+        ops.push(op);
+    }
+    format!("seq {} | {}", cap, ops.join(" ; "))
+}
+
+fn gen_pgr(rng: &mut Rng) -> String {
+    let cap = match rng.below(10) {
+        0 | 1 => 1,
+        2 | 3 | 4 => rng.range(2, 4) as u64,
+        5 | 6 | 7 => rng.range(5, 16) as u64,
+        _ => rng.range(17, 64) as u64,
+    };
+    let ps = if rng.chance(3, 4) { 4096 } else { *rng.pick(&[8192u64, 16384, 32768, 65536]) };
+    let n_alloc = (cap * rng.range(1, 3) as u64 + rng.below(4)).clamp(2, 90);
+    let n_ops = rng.range(6, 40) as usize + if rng.chance(1, 3) { rng.range(20, 100) as usize } else { 0 };
+    let pin_w = *rng.pick(&[0u64, 1, 3, 8]);
+    let unpin_w = *rng.pick(&[1u64, 3, 8]);
+    let flush_w = *rng.pick(&[0u64, 1, 1, 2]);
+    let reopen_w = *rng.pick(&[0u64, 0, 1]);
+    // flushing while frames are pinned detaches them; keep that out of most cases
+    let flush_pinned_ok = rng.chance(1, 4);
+    let mut ops: Vec<String> = Vec::new();
+    let mut allocated = 0u64;
+    let mut pins = 0u64;
+    let mut live: Vec<u64> = Vec::new();
+    for _ in 0..n_ops {
+        if allocated < n_alloc && (allocated < 2 || rng.chance(2, 5)) {
+            allocated += 1;
+            ops.push("alloc".into());
+            continue;
+        }
+        let total = 8 + 8 + pin_w + unpin_w + 2 + 3 + flush_w + reopen_w + 3;
+        let mut r = rng.below(total);
+        let mut take = |w: u64| {
+            if r < w {
+                true
+            } else {
+                r -= w;
+                false
+            }
+        };
+        let p = if rng.chance(1, 25) { rng.below(allocated + 3) } else { 1 + rng.below(allocated.max(1)) };
+        let extra = if rng.chance(1, 8) { 1 } else { 0 };
+        let k = if pins == 0 { 0 } else { rng.below(pins + extra) };
+        let v = if rng.chance(1, 20) { rng.next_u64() >> 1 } else { 1 + rng.below(1000) };
+        let op = if take(8) {
+            format!("read {}", p)
+        } else if take(8) {
+            format!("write {} {}", p, v)
+        } else if take(pin_w) {
+            live.push(pins);
+            pins += 1;
+            format!("pin {}", p)
+        } else if take(unpin_w) {
+            live.retain(|h| *h != k);
+            format!("unpin {}", k)
+        } else if take(2) {
+            format!("hread {}", k)
+        } else if take(3) {
+            format!("hwrite {} {}", k, v)
+        } else if take(flush_w + reopen_w) {
+            if !flush_pinned_ok {
+                for h in live.drain(..) {
+                    ops.push(format!("unpin {}", h));
+                }
+            }
+            if rng.below(flush_w + reopen_w) < flush_w { "flush".to_string() } else { "reopen".to_string() }
+        } else {
+            format!("disk {}", p.max(1))
+        };
+        ops.push(op);
+    }
+    // every case ends by reading everything back, through the cache and (after a checkpoint) from the file
+    if rng.chance(1, 2) {
+        if !flush_pinned_ok {
+            for h in live.drain(..) {
+                ops.push(format!("unpin {}", h));
+            }
+        }
+        ops.push("flush".into());
+        for p in 1..=allocated {
+            ops.push(format!("disk {}", p));
+        }
+    }
+    for p in 1..=allocated {
+        ops.push(format!("read {}", p));
+    }
+    format!("pgr {} {} | {}", cap, ps, ops.join(" ; "))
+}
+
+fn gen_cfg(rng: &mut Rng) -> String {
+    let page = match rng.below(8) {
+        0 => rng.below(5000),
+        1 => *rng.pick(&[0u64, 1, 4095, 4096, 4097, 8191, 8192, 8193, 65535, 65536, 65537, 1 << 20, 1 << 40]),
+        2 => 1u64 << rng.below(63),
+        3 => (1u64 << rng.below(62)) + 1,
+        _ => rng.below(140_000),
+    };
+    let cache = match rng.below(8) {
+        0 => *rng.pick(&[0u64, 1, 48, 128, 1024, 10000, 65535, 65536, 65537, 100_000]),
+        1 => rng.below(1 << 40),
+        _ => rng.below(200_000),
+    };
+    let pool = rng.below(12);
+    let mk = if rng.chance(1, 5) { rng.below(1000) } else { rng.below(12) };
+    let sib = if rng.chance(1, 5) { rng.below(1000) } else { rng.below(8) };
+    format!("cfg {} {} {} {} {}", page, cache, pool, mk, sib)
+}
+
+fn tags_of(line: &str, out: &str) -> Vec<String> {
+    let mut tags: Vec<String> = Vec::new();
+    let ws: Vec<&str> = line.split(' ').collect();
+    let kind = ws[0];
+    tags.push(kind.to_string());
+    let g = out.split(" ## ").next().unwrap_or("");
+    match kind {
+        "seq" | "pgr" => {
+            let cap: u64 = ws[1].parse().unwrap_or(0);
+            tags.push(
+                match cap {
+                    0 => "cap0",
+                    1 => "cap1",
+                    2..=4 => "cap2-4",
+                    5..=16 => "cap5-16",
+                    _ => "cap17-64",
+                }
+                .to_string(),
+            );
+            if kind == "pgr" && ws[2] != "4096" {
+                tags.push("bigpage".into());
+            }
+            let body = line.split(" | ").nth(1).unwrap_or("");
+            let mut kinds: Vec<&str> = body.split(" ; ").map(|o| o.split(' ').next().unwrap_or("")).collect();
+            let n_ops = kinds.len();
+            kinds.sort();
+            kinds.dedup();
+            for k in kinds {
+                tags.push(format!("op:{}", k));
+            }
+            tags.push(if n_ops > 50 { "long".into() } else { "short".into() });
+            let outs: Vec<&str> = g.split(" ; ").collect();
+            let has = |f: &dyn Fn(&str) -> bool| outs.iter().any(|o| f(o));
+            if has(&|o| o == "oom") {
+                tags.push("out:oom".into());
+            }
+            if has(&|o| o == "io") {
+                tags.push("out:io".into());
+            }
+            if has(&|o| o.contains("ev=")) {
+                tags.push("out:evict".into());
+            }
+            if has(&|o| o.contains("ev=") && o.ends_with(":1")) {
+                tags.push("out:evict-dirty".into());
+            }
+            if has(&|o| o.starts_with("hit")) {
+                tags.push("out:hit".into());
+            }
+            if has(&|o| o == "miss") {
+                tags.push("out:miss".into());
+            }
+            if has(&|o| o == "rep") {
+                tags.push("out:replace".into());
+            }
+            if has(&|o| o == "nohandle") {
+                tags.push("out:nohandle".into());
+            }
+            if has(&|o| o == "eof") {
+                tags.push("out:eof".into());
+            }
+            let nontrivial = if kind == "seq" {
+                has(&|o| o.contains("ev=") || o == "oom" || (o.starts_with("clear [") && o != "clear []"))
+            } else {
+                // some page went to the file and was looked at again, or memory ran out
+                let allocs = outs.iter().filter(|o| o.starts_with('a')).count() as u64;
+                allocs > cap.max(1) || body.contains("flush") || body.contains("reopen") || has(&|o| o == "oom")
+            };
+            if nontrivial {
+                tags.push("nt".into());
+            }
+        }
+        "grid" | "gridx" => {
+            tags.push("nt".into());
+            if (kind == "grid" && ws[3] == "1") || (kind == "gridx" && ws[2].parse::<u64>().unwrap_or(0) < 48) {
+                tags.push("cache_too_small".into());
+            }
+            if out.contains("tolerated_oom=") && !out.contains("tolerated_oom=0") {
+                tags.push("out:tolerated-oom".into());
+            }
+            if out.contains("oracle-mismatch") {
+                tags.push("out:oracle-mismatch".into());
+            }
+            let body = line.split(" | ").nth(1).unwrap_or("");
+            let max_len = body
+                .split(" ; ")
+                .filter(|o| o.starts_with("ins ") || o.starts_with("bulk ") || o.starts_with("updb "))
+                .filter_map(|o| o.rsplit(' ').next().and_then(|x| x.parse::<u64>().ok()))
+                .max()
+                .unwrap_or(0);
+            if max_len >= 300 {
+                tags.push("bigrows".into());
+            }
+            if max_len > 21000 {
+                tags.push("overflow-64k".into());
+            }
+            let rows: u64 = body
+                .split(" ; ")
+                .map(|o| {
+                    let w: Vec<&str> = o.split(' ').collect();
+                    match w[0] {
+                        "ins" => 1,
+                        "bulk" => w[2].parse::<u64>().unwrap_or(0),
+                        _ => 0,
+                    }
+                })
+                .sum();
+            tags.push(if rows > 120 { "rows>120".into() } else { "rows<=120".into() });
+            if body.contains("ckpt") {
+                tags.push("op:ckpt".into());
+            }
+        }
+        "cfg" => {
+            tags.push("nt".into());
+            let cache: u64 = ws[2].parse().unwrap_or(0);
+            if cache >= 65536 {
+                tags.push("cache-over-u16".into());
+            }
+            if ws[4].parse::<u64>().unwrap_or(0) >= 256 || ws[5].parse::<u64>().unwrap_or(0) >= 256 {
+                tags.push("over-u8".into());
+            }
+        }
+        _ => {}
+    }
+    tags
+}
+
+impl Engine for CacheEngine {
+    fn gen_cases(&self, rng: &mut Rng, tier: Tier) -> Vec<Case> {
+        let scale = if tier == Tier::Thorough { 10 } else { 1 };
+        let mut lines: Vec<String> = Vec::new();
+        let mut r_seq = rng.fork("seq");
+        for _ in 0..(2500 * scale) {
+            lines.push(gen_seq(&mut r_seq));
+        }
+        let mut r_pgr = rng.fork("pgr");
+        for _ in 0..(1200 * scale) {
+            lines.push(gen_pgr(&mut r_pgr));
+        }
+        let mut r_cfg = rng.fork("cfg");
+        for _ in 0..(150 * scale) {
+            lines.push(gen_cfg(&mut r_cfg));
+        }
+        let mut r_grid = rng.fork("grid");
+        for i in 0..(8 * scale) {
+            // 6 of 8 workloads stay below 300 bytes per row; 2 of 8 carry large rows (region `bigrows`)
+            lines.push(gen_grid(&mut r_grid, 12, i % 4 == 3));
+        }
+        // Tags describe what the case reaches on the real code (outcome classes), so they are measured, not guessed.
+        // The cases are run in supervised child processes (an abort of the code under test must not kill `gen`);
+        // grid cases are too slow to run twice and are tagged from their text alone.
+        let dir = Scratch::new("gen");
+        let cp = dir.0.join("cases");
+        let op = dir.0.join("outs");
+        let fast: Vec<&String> = lines.iter().filter(|l| !l.starts_with("grid ")).collect();
+        std::fs::write(&cp, fast.iter().map(|l| format!("{}\n", l)).collect::<String>()).unwrap();
+        crate::supervise::run("cache", None, self.timeout_ms(), cp.to_str().unwrap(), op.to_str().unwrap(), 8);
+        let outs_text = std::fs::read_to_string(&op).unwrap_or_default();
+        let mut outs = outs_text.lines();
+        lines
+            .iter()
+            .map(|line| {
+                let out = if line.starts_with("grid ") { "" } else { outs.next().unwrap_or("") };
+                Case { line: line.clone(), tags: tags_of(line, out) }
+            })
+            .collect()
+    }
+
+    fn exec(&mut self, line: &str) -> String {
+        let ws: Vec<&str> = line.trim().split(' ').filter(|w| !w.is_empty()).collect();
+        match ws.as_slice() {
+            ["seq", cap, "|", rest @ ..] => {
+                let Some(cap) = num(cap) else { return "bad-op".into() };
+                let ops: Option<Vec<COp>> = split_ops(rest).iter().map(|o| parse_cop(o)).collect();
+                match ops {
+                    Some(ops) => exec_seq(cap, &ops),
+                    None => "bad-op".into(),
+                }
+            }
+            ["pgr", cap, ps, "|", rest @ ..] => {
+                let (Some(cap), Some(ps)) = (num(cap), num(ps)) else { return "bad-op".into() };
+                if ![4096, 8192, 16384, 32768, 65536].contains(&ps) || cap > 200_000 {
+                    return "bad-op".into();
+                }
+                let ops: Option<Vec<POp>> = split_ops(rest).iter().map(|o| parse_pop(o)).collect();
+                match ops {
+                    Some(ops) => exec_pgr(cap, ps, &ops),
+                    None => "bad-op".into(),
+                }
+            }
+            ["grid", seed, ncfg, small, "|", rest @ ..] => {
+                let (Some(seed), Some(ncfg)) = (num(seed), num(ncfg)) else { return "bad-op".into() };
+                let small = match *small {
+                    "0" => false,
+                    "1" => true,
+                    _ => return "bad-op".into(),
+                };
+                if !(2..=64).contains(&ncfg) {
+                    return "bad-op".into();
+                }
+                let stmts: Option<Vec<GStmt>> = split_ops(rest).iter().map(|o| parse_gstmt(o)).collect();
+                match stmts {
+                    Some(st) => exec_grid(seed, ncfg, small, &st),
+                    None => "bad-op".into(),
+                }
+            }
+            ["gridx", page, cache, pool, mk, sib, ckpt, "|", rest @ ..] => {
+                // the reference configuration against one explicitly given configuration
+                let (Some(page), Some(cache), Some(pool), Some(mk), Some(sib)) = (num(page), num(cache), num(pool), num(mk), num(sib))
+                else {
+                    return "bad-op".into();
+                };
+                let ckpt = match *ckpt {
+                    "0" => false,
+                    "1" => true,
+                    _ => return "bad-op".into(),
+                };
+                if ![4096, 8192, 16384, 32768, 65536].contains(&page) || cache == 0 || cache > 100_000 || pool == 0 || pool > 16 || mk < 2 || mk > 16 || sib == 0 || sib > 8 {
+                    return "bad-op".into();
+                }
+                let stmts: Option<Vec<GStmt>> = split_ops(rest).iter().map(|o| parse_gstmt(o)).collect();
+                let Some(st) = stmts else { return "bad-op".into() };
+                let cfgs = vec![
+                    GridCfg { page: 4096, cache: 10000, pool: 2, min_keys: 3, siblings: 2, ckpt: false },
+                    GridCfg { page: page as usize, cache: cache as usize, pool: pool as usize, min_keys: mk as usize, siblings: sib as usize, ckpt },
+                ];
+                exec_grid_with(cfgs, &st)
+            }
+            ["cfg", a, b, c, d, e] => match (num(a), num(b), num(c), num(d), num(e)) {
+                (Some(a), Some(b), Some(c), Some(d), Some(e)) => exec_cfg(a, b, c, d, e),
+                _ => "bad-op".into(),
+            },
+            _ => "bad-op".into(),
+        }
+    }
+
+    fn timeout_ms(&self) -> u64 {
+        90_000
     }
 }
 
 /// Content of `lean/AxVerif/Generated/<Engine>.lean`, if this engine extracts constants from the code.
 pub fn generated() -> Option<(&'static str, String)> {
-    None
+    let c = vc::config_constants();
+    let s = format!(
+        "/- REGENERATED on every run by `axh extract` from values evaluated out of /repo. Do not edit. -/\n\
+         namespace AxVerif.Generated\n\n\
+         /-- MIN_PAGE_SIZE, MAX_PAGE_SIZE, DEFAULT_CACHE_SIZE, and page size / min keys / siblings of `DBConfig::default()` -/\n\
+         def cacheConsts : List Nat := [{}, {}, {}, {}, {}, {}]\n\n\
+         end AxVerif.Generated\n",
+        c[0], c[1], c[2], c[3], c[4], c[5]
+    );
+    Some(("Cache.lean", s))
 }
